@@ -432,14 +432,27 @@ func analyse(s *kit.Summary, r *kit.Rng, h *history, res *histResult, longrun, p
 				viol("dial_passthrough", "without options the address must reach the dialer unchanged", d, fmt.Sprint(got), nil)
 			}
 		case "C":
+			if _, ok := mapByKey[d]; ok && d != strings.ToLower(d) {
+				s.Count("connect_to:mixed_case_key_dialled_as_written")
+			}
 			if e, ok := mapByKey[d]; ok {
 				if len(got) != 1 || replOwner[got[0]] != e {
 					viol("connect_to_target", "dial to a mapped address did not go to one of its replacements", fmt.Sprint(e.Repl), fmt.Sprint(got), nil)
 				} else {
 					used[d] = append(used[d], replIndex[got[0]])
 				}
-			} else if len(got) != 1 || got[0] != d {
-				viol("connect_to_passthrough", "unmapped address did not pass through unchanged", d, fmt.Sprint(got), nil)
+			} else {
+				foldMatch := false
+				for k := range mapByKey {
+					foldMatch = foldMatch || strings.EqualFold(k, d)
+				}
+				if foldMatch {
+					// the same address in a different spelling than the key: whether that counts as
+					// "mapped" is not in the property text — left to the model comparison (exact match)
+					s.Count("connect_to:dial_differs_from_key_in_case_only")
+				} else if len(got) != 1 || got[0] != d {
+					viol("connect_to_passthrough", "unmapped address did not pass through unchanged", d, fmt.Sprint(got), nil)
+				}
 			}
 		case "D", "DC":
 			target := d
@@ -808,10 +821,26 @@ func genHistory(r *kit.Rng, cfg string, tier string, workers int) *history {
 			h.Map = append(h.Map, e)
 			pool = append(pool, e.Key)
 		}
+		// keys spelled with capital letters / upper-case hex, dialled with the SAME spelling (the transport
+		// hands the URL's host to the dial function as written)
+		for i, k := range []string{"Sapo.PT:80", "SVC.Example.COM:8080", "[2001:DB8::A]:443"} {
+			if r.Chance(0.5) {
+				e := mapEntry{Key: k}
+				for j := 0; j < 1+r.Pick(3); j++ {
+					e.Repl = append(e.Repl, fmt.Sprintf("10.6.%d.%d:%d", i, j+1, 9200+j))
+				}
+				h.Map = append(h.Map, e)
+				pool = append(pool, k, k)
+			}
+		}
+		// …and a differently spelled variant of a key: the code matches the string exactly
+		if r.Chance(0.3) {
+			pool = append(pool, strings.ToUpper(h.Map[0].Key))
+		}
 		pool = append(pool, "unmapped.example:80", "10.9.9.9:80", "[2001:db8::9]:443")
 	case "DC":
 		// mapped service names whose replacements are host names resolved through the cache
-		e := mapEntry{Key: "svc.example:" + port()}
+		e := mapEntry{Key: []string{"svc.example:", "Svc.Example:", "SVC.EXAMPLE:"}[r.Pick(3)] + port()}
 		for i, hs := range h.Hosts {
 			e.Repl = append(e.Repl, hs.Name+":"+strconv.Itoa(8000+i))
 		}
